@@ -62,8 +62,12 @@ class GraphServer(UDSServer):
     def __init__(self, sessions: list[int], edges: set[tuple[int, int]], realisation: str = "A",
                  nrc_salt: int = 0, cap: int = 10**9, mutant: str | None = None,
                  reset_mode: str = "absent", slow: float = 0.0, latency: float = 0.0,
-                 reset_delay: float = 0.25) -> None:
+                 reset_delay: float = 0.25, param_record: bytes | None = None) -> None:
         super().__init__()
+        # sessionParameterRecord of positive DiagnosticSessionControl answers: None = what gallia's server sends;
+        # otherwise these bytes (ISO 14229-1:2006 leaves the record to the vehicle manufacturer; later editions put
+        # P2 / P2* there, ECUs in the field append their own bytes)
+        self.param_record = param_record
         self.latency = latency  # seconds every answer takes (bus + processing time)
         self.reset_delay = reset_delay  # "pos-delayed": seconds between the positive answer and the reset itself
         # slow > 0: an accepted session change takes `slow` seconds; the ECU announces it with
@@ -160,6 +164,8 @@ class GraphServer(UDSServer):
             self.writer.write(b"7f1078\n")
             await asyncio.sleep(self.slow)
         response = await super().respond(request)
+        if self.param_record is not None and isinstance(response, service.DiagnosticSessionControlResponse):
+            response = service.DiagnosticSessionControlResponse(response.diagnostic_session_type, self.param_record)
         after = self.state.session
         if request.service_id == DSC and len(request.pdu) >= 2:
             self.log.append({
@@ -241,7 +247,8 @@ def run_scan(case: dict[str, Any]) -> dict[str, Any]:
     cap = request_cap(len(sessions), case["depth"])
     srv = GraphServer(sessions, edges, case.get("real", "A"), case.get("salt", 0), cap, case.get("mutant"),
                       case.get("reset_mode", "absent"), float(case.get("slow", 0.0)),
-                      float(case.get("latency", 0.0)), float(case.get("reset_delay", 0.25)))
+                      float(case.get("latency", 0.0)), float(case.get("reset_delay", 0.25)),
+                      bytes.fromhex(case["param_record"]) if case.get("param_record") is not None else None)
     st = TCPUDSServerTransport(srv, TargetURI("tcp-lines://127.0.0.1:20162"))
     kw: dict[str, Any] = {}
     if case.get("skip_text"):
